@@ -12,7 +12,9 @@ NSLICES = 6
 RULE = (
     "E1 exhaustive. overlap: pairs whose guarantees share an interface-level constraint t: shared-input wiring "
     "(t over the common input), cascade and mix wirings with the connection variable kept (t over the kept output) and "
-    "not kept, t' on the other side in {identical, scaled by 2, weaker by one step, stronger by one step}, own "
+    "not kept, t' on the other side in {identical, scaled by 2, weaker by one step, stronger by one step}; match: a producer "
+    "guarantee that discharges the consumer's assumption on a kept connection variable; neardup: guarantees of the two operands "
+    "over the same variables that differ in one coefficient only; own "
     "guarantees from a panel, assumptions {none, one term}; exact: every level-0 pair of the independent and "
     "shared-input wirings (no variable to eliminate); merge: every pair of contracts over one interface from a panel with "
     "overlapping terms. Each pair in both call orders x simplify {True,False} x tactics {default, [1],[2]}. Oracle: for every "
@@ -52,6 +54,33 @@ def _overlap_cases():
                                     yield {"fam": "overlap", "w": w, "c1": c1, "c2": c2, "keep": keep}
 
 
+def _match_cases():
+    """a producer guarantee that exactly discharges the consumer's assumption, with the connection variable kept"""
+    for w, (i1, o1, i2, o2) in (("casc", cgrid.WIRINGS["casc"]), ("mix", cgrid.WIRINGS["mix"])):
+        for k in (2, 5):
+            for dk in (0, 1):
+                for g1x in ([[{"o": -1}, 0]], [[{"o": -1, "i": 1}, 0]], []):
+                    for g2 in ([[{"p": 1, "o": -2}, 0]], [[{"p": 1, "o": -1}, 1], [{"p": -1}, 0]]):
+                        for a1 in ([], [[{"i": 1}, k]]):
+                            c1 = {"i": i1, "o": o1, "a": a1, "g": [[{"o": 1}, k]] + g1x}
+                            c2 = {"i": i2, "o": o2, "a": [[{"o": 1}, k + dk]], "g": g2}
+                            for keep in ([], ["o"]):
+                                yield {"fam": "overlap", "w": w, "c1": c1, "c2": c2, "keep": keep}
+
+
+def _neardup_cases():
+    """guarantees over the same variables with the same constant and last coefficient but another leading coefficient"""
+    i1, o1, i2, o2 = ["i", "j"], ["o"], ["i", "j"], ["p"]
+    for a, b in itertools.permutations((1, 2, -1, 3), 2):
+        for k in (4, 0):
+            for pos in (0, 1):
+                t1, t2 = [{"i": a, "j": 1}, k], [{"i": b, "j": 1}, k]
+                g1 = [t1, [{"o": 1}, 1]] if pos else [[{"o": 1}, 1], t1]
+                g2 = [t2, [{"p": 1}, 1]] if pos else [[{"p": 1}, 1], t2]
+                yield {"fam": "overlap", "w": "share2", "c1": {"i": i1, "o": o1, "a": [], "g": g1}, "c2": {"i": i2, "o": o2, "a": [], "g": g2}, "keep": []}
+                yield {"fam": "merge", "c1": {"i": i1, "o": ["o"], "a": [], "g": [t1]}, "c2": {"i": i2, "o": ["o"], "a": [], "g": [t2, [{"o": 1}, 1]]}}
+
+
 def _merge_cases():
     panel = [[{"i": 1}, 2], [{"o": 1, "i": -1}, 0], [{"o": 1}, 3], [{"o": 2}, 6], [{"o": 1}, 4], [{"o": -1}, 0]]
     A = [[], [[{"i": -1}, 0]], [[{"i": 1}, 1]]]
@@ -68,6 +97,10 @@ def cases(tier, seed):
     for c in _overlap_cases():
         yield c
     for c in _merge_cases():
+        yield c
+    for c in _match_cases():
+        yield c
+    for c in _neardup_cases():
         yield c
     k = 0
     for w in ("indep", "share"):
@@ -119,7 +152,7 @@ def run_case(case):
                 continue
             out.append(("returned", True, str(res), _check(a, b, res, False, sub), {"merge": 1}))
         return out
-    i1, o1, i2, o2 = cgrid.WIRINGS[case["w"]]
+    i1, o1, i2, o2 = cgrid.WIRINGS[case["w"]] if case["w"] in cgrid.WIRINGS else (case["c1"]["i"], case["c1"]["o"], case["c2"]["i"], case["c2"]["o"])
     connected = bool(set(o1) & set(i2)) or bool(set(o2) & set(i1))
     for a, b, tag in ((c1, c2, "12"), (c2, c1, "21")):
         for simplify in (True, False):
